@@ -359,6 +359,21 @@ func (r *Runner) seedPods(set string, o SetOpts) {
 			}
 		}
 	}
+	// claims of absent ordinals: left behind by an earlier scale-in, some of them being deleted
+	// (held by the pvc-protection finalizer)
+	for ord := 0; ord <= r.Cfg.MaxOrd && len(o.Claims) > 0; ord++ {
+		if w.GetPod(fmt.Sprintf("%s-%d", set, ord)) != nil || !r.chance(0.25) {
+			continue
+		}
+		pvc := &corev1.PersistentVolumeClaim{ObjectMeta: metav1.ObjectMeta{Namespace: NS, Name: fmt.Sprintf("%s-%s-%d", o.Claims[0], set, ord)}}
+		if r.chance(0.5) {
+			t := fixedTime
+			pvc.DeletionTimestamp = &t
+			pvc.Finalizers = []string{"kubernetes.io/pvc-protection"}
+			r.logf("   claim %s is terminating", pvc.Name)
+		}
+		w.Srv.Seed(simapi.PVCs, pvc)
+	}
 }
 
 func ownerStr(o *metav1.OwnerReference) string {
